@@ -17,6 +17,7 @@
 package types
 
 import (
+	"encoding/json"
 	"fmt"
 	"strconv"
 	"strings"
@@ -28,6 +29,40 @@ type DeviceRequest struct {
 	Count        DeviceCount `yaml:"count,omitempty" json:"count,omitempty"`
 	IDs          []string    `yaml:"device_ids,omitempty" json:"device_ids,omitempty"`
 	Options      Mapping     `yaml:"options,omitempty" json:"options,omitempty"`
+}
+
+// deviceRequestMarshal is the rendered form of DeviceRequest: count is a pointer so that an explicit
+// `count: 0` is not dropped by omitempty (a request without count nor device_ids is loaded as `count: all`)
+type deviceRequestMarshal struct {
+	Capabilities []string     `yaml:"capabilities,omitempty" json:"capabilities,omitempty"`
+	Driver       string       `yaml:"driver,omitempty" json:"driver,omitempty"`
+	Count        *DeviceCount `yaml:"count,omitempty" json:"count,omitempty"`
+	IDs          []string     `yaml:"device_ids,omitempty" json:"device_ids,omitempty"`
+	Options      Mapping      `yaml:"options,omitempty" json:"options,omitempty"`
+}
+
+func (d DeviceRequest) marshal() deviceRequestMarshal {
+	m := deviceRequestMarshal{
+		Capabilities: d.Capabilities,
+		Driver:       d.Driver,
+		IDs:          d.IDs,
+		Options:      d.Options,
+	}
+	// count and device_ids are exclusive
+	if d.Count != 0 || len(d.IDs) == 0 {
+		m.Count = &d.Count
+	}
+	return m
+}
+
+// MarshalYAML makes DeviceRequest implement yaml.Marshaller
+func (d DeviceRequest) MarshalYAML() (interface{}, error) {
+	return d.marshal(), nil
+}
+
+// MarshalJSON makes DeviceRequest implement json.Marshaler
+func (d DeviceRequest) MarshalJSON() ([]byte, error) {
+	return json.Marshal(d.marshal())
 }
 
 type DeviceCount int64
